@@ -5,8 +5,9 @@ algorithm with simple path compression.  Imports only the graph model.
 Python dicts are functions `Nat → Option _` (`none` = key absent; a lookup of an absent key is a
 `KeyError`, modelled as the result `none` of the whole run).  `ancestor[v]` holds `0` or a node,
 modelled as `some none` / `some (some u)`.  `pred` and `bucket` are `defaultdict(set)`: modelled as
-duplicate-free lists in insertion order (Python iterates / pops them in hash order, which the
-algorithm's result must not depend on).  Recursion (`_dfs`, `_compress`) is structural on fuel;
+duplicate-free lists in insertion order; Python iterates / pops them in hash order, so the enumeration
+order is a parameter (`Order`) of the main loop: the driver runs insertion order, the correctness
+theorem (Props/C18.lean, `domlt_correct_any_order`) holds for every order.  Recursion (`_dfs`, `_compress`) is structural on fuel;
 exhausted fuel is the result `none`.
 
     def _dfs(v, n):
@@ -135,12 +136,27 @@ def step3 (f : Nat) (pw : Nat) : List Nat → St → Option St
     | some (s1, u) =>
       step3 f pw vs { s1 with dom := upd s1.dom v (some (if s1.semi u < s1.semi v then u else pw)) }
 
+/-- Iteration order of the two Python sets.  `for v in pred[w]` and `bucket[pw].pop()` enumerate a
+    `set` in hash order, which the model cannot know: `o.pred i l` / `o.bucket i l` is the order in
+    which the set with insertion-ordered content `l` is enumerated in iteration `i` of the main loop.
+    `Order.ins` (insertion order) is what the driver runs; the correctness theorem holds for every
+    order that enumerates exactly the elements of the set (`Order.Adm`). -/
+structure Order where
+  pred : Nat → List Nat → List Nat
+  bucket : Nat → List Nat → List Nat
+
+def Order.ins : Order := { pred := fun _ l => l, bucket := fun _ l => l }
+
+/-- admissible: the enumeration yields exactly the elements of the set -/
+def Order.Adm (o : Order) : Prop :=
+  ∀ (i : Nat) (l : List Nat) (x : Nat), (x ∈ o.pred i l ↔ x ∈ l) ∧ (x ∈ o.bucket i l ↔ x ∈ l)
+
 /-- one iteration of `for i in range(n, 1, -1)`; `y` survives from the previous iteration as in Python -/
-def iter23 (f : Nat) (i : Nat) (s : St) (y : Option Nat) : Option (St × Option Nat) :=
+def iter23 (o : Order) (f : Nat) (i : Nat) (s : St) (y : Option Nat) : Option (St × Option Nat) :=
   match s.vertex i with
   | none => none
   | some w =>
-    match step2 f w (s.pred w) s y with
+    match step2 f w (o.pred i (s.pred w)) s y with
     | none => none
     | some (s1, y1) =>
       match y1 with
@@ -151,19 +167,19 @@ def iter23 (f : Nat) (i : Nat) (s : St) (y : Option Nat) : Option (St × Option 
           -- bucket[vertex[y]].add(w);  _link(pw, w): ancestor[w] = pw
           let s2 := { s1 with bucket := upd s1.bucket vy (setAdd (s1.bucket vy) w),
                               ancestor := upd s1.ancestor w (some (some pw)) }
-          match step3 f pw (s2.bucket pw) s2 with
+          match step3 f pw (o.bucket i (s2.bucket pw)) s2 with
           | none => none
           | some s3 => some ({ s3 with bucket := upd s3.bucket pw [] }, y1)
         | _, _ => none
 
 /-- `for i in range(n, 1, -1)`: called with `i = n` -/
-def steps23 (f : Nat) : Nat → St → Option Nat → Option St
+def steps23 (o : Order) (f : Nat) : Nat → St → Option Nat → Option St
   | 0, s, _ => some s
   | 1, s, _ => some s
   | i + 2, s, y =>
-    match iter23 f (i + 2) s y with
+    match iter23 o f (i + 2) s y with
     | none => none
-    | some (s1, y1) => steps23 f (i + 1) s1 y1
+    | some (s1, y1) => steps23 o f (i + 1) s1 y1
 
 /-- Step 4: `for i in range(2, n + 1)`: `k` iterations starting at `i` -/
 def step4 : Nat → Nat → St → Option St
@@ -196,11 +212,12 @@ structure Result where
 
 def dfsFuel (g : Digraph) : Nat := g.n + g.degSum g.n + 2
 
-def domLT (g : Digraph) : Option Result :=
+/-- `dom_lt(graph)` with the sets enumerated in the order `o` -/
+def domLTWith (o : Order) (g : Digraph) : Option Result :=
   match dfs g (dfsFuel g) with
   | none => none
   | some (s, n) =>
-    match steps23 (g.n + 1) n s none with
+    match steps23 o (g.n + 1) n s none with
     | none => none
     | some s1 =>
       match step4 (n - 1) 2 s1 with
@@ -209,6 +226,9 @@ def domLT (g : Digraph) : Option Result :=
         some { dom := fun v => if v = g.entry then some none else (s2.dom v).map some,
                order := (List.range' 1 n).filterMap s.vertex,
                dfnum := s.semi, parent := s.parent, pred := s.pred }
+
+/-- `dom_lt(graph)`, sets enumerated in insertion order (what the driver runs) -/
+def domLT (g : Digraph) : Option Result := domLTWith Order.ins g
 
 /-- the dominator tree as a parent function (entry and unreachable nodes ↦ none) -/
 def Result.idom (r : Result) (v : Nat) : Option Nat := (r.dom v).join
